@@ -312,7 +312,7 @@ def job_oil(job):
         job.validate("density_Standing", evalf(pr.value, env, ufs), float(ro.density_Standing(*[env[k] for k in ("T", "p", "api", "gg", "rsi")])), inputs=env)
 
 
-def replay_oil_array(model, dtype="f8"):
+def replay_oil_array(model, dtype="f8", two_d=False):
     """density_Standing on a pressure array listed from high to low, element by element against the library's own scalar
     R_s and B_o at the same pressure."""
     import numpy as np
@@ -328,9 +328,14 @@ def replay_oil_array(model, dtype="f8"):
         if dtype != "f8":
             arr = [float(round(x)) for x in arr]      # whole psi in an integer-typed array (np.arange, a CSV column of whole numbers)
         np_arr = np.array(arr, dtype={"f8": "float64", "i8": "int64"}[dtype])
+        if two_d:
+            np_arr = np_arr.reshape(1, -1)       # one time step by two cells: the functions are element-wise on any shape
         with np.errstate(all="ignore"):
-            rho = np.asarray(oil.density_Standing(m["T"], np_arr, m["api"], m["gg"], m["rsi"]), float)
-            bo_arr = np.asarray(oil.b_o_Standing(m["T"], np_arr, m["api"], m["gg"], m["rsi"]), float)
+            rho = np.asarray(oil.density_Standing(m["T"], np_arr, m["api"], m["gg"], m["rsi"]), float).ravel()
+            bo_arr = np.asarray(oil.b_o_Standing(m["T"], np_arr, m["api"], m["gg"], m["rsi"]), float).ravel()
+        if rho.shape != (len(arr),) or bo_arr.shape != (len(arr),):
+            problems.append(f"pressures {np_arr!r}: results of shape {rho.shape} / {bo_arr.shape}")
+            continue
         for j, p in enumerate(arr):
             a = (m["T"], float(p), m["api"], m["gg"], m["rsi"])
             want = 62.37 * 141.5 / (131.5 + m["api"]) + 0.0136 * m["gg"] * float(oil.solution_gor_Standing(*a))
@@ -343,7 +348,7 @@ def replay_oil_array(model, dtype="f8"):
     return bool(problems), {"what": "; ".join(problems[:2]) or "array density consistent with scalar R_s, B_o", "inputs": m}
 
 
-def job_oil_array(job, dtype="f8"):
+def job_oil_array(job, dtype="f8", two_d=False):
     """The oil identity for the values a caller gets back from an array call: density_Standing on two pressures listed
     from high to low (a depletion sequence), each element against the library's own scalar R_s and B_o at that pressure."""
     import bluebonnet.fluids.oil as _ro
@@ -357,12 +362,17 @@ def job_oil_array(job, dtype="f8"):
     T_, api, gg, rsi = vs["T"], vs["api"], vs["gg"], vs["rsi"]
     ps = [vs["p2"], vs["p1"]]
 
-    dtag = "" if dtype == "f8" else ", int64 pressure array"
-    rpo = (replay_oil_array, {"dtype": dtype})
+    dtag = ("" if dtype == "f8" else ", int64 pressure array") + (", pressures as a 1 x 2 array" if two_d else "")
+    rpo = (replay_oil_array, {"dtype": dtype, "two_d": two_d})
+
+    def mkarr():
+        return SymArray([SymArray(list(ps), dtype)], dtype, (1, 2)) if two_d else SymArray(list(ps), dtype)
 
     def run():
-        rho = oil.density_Standing(T_, SymArray(list(ps), dtype), api, gg, rsi)
-        bo_arr = oil.b_o_Standing(T_, SymArray(list(ps), dtype), api, gg, rsi)
+        rho = oil.density_Standing(T_, mkarr(), api, gg, rsi)
+        bo_arr = oil.b_o_Standing(T_, mkarr(), api, gg, rsi)
+        if two_d and isinstance(rho, SymArray) and rho.shape == (1, 2) and isinstance(bo_arr, SymArray) and bo_arr.shape == (1, 2):
+            rho, bo_arr = rho.d[0], bo_arr.d[0]
         sc = [(oil.solution_gor_Standing(T_, p, api, gg, rsi), oil.b_o_Standing(T_, p, api, gg, rsi), oil.density_Standing(T_, p, api, gg, rsi), bo_arr.d[j])
               for j, p in enumerate(ps)]
         return rho, sc
@@ -417,4 +427,4 @@ def jobs(tier):
     return [("gas-density", job_gas_density), ("gas-compressibility", job_gas_compressibility),
             ("gas-viscosity", job_viscosity), ("oil-density", job_oil), ("water-density", job_water),
             ("gas-through-the-facade", job_facade_gas), ("oil-density-array", job_oil_array), ("oil-density-array-int64", lambda j: job_oil_array(j, "i8")),
-            ("oil-through-the-facade-reassigned", job_facade_oil_reassigned)]
+            ("oil-through-the-facade-reassigned", job_facade_oil_reassigned), ("oil-density-array-1x2", lambda j: job_oil_array(j, "f8", True))]
